@@ -28,7 +28,7 @@ import progcommon as pc
 
 PID = "C06"
 OPERATORS = ["operand-type", "arg-count", "targ-count", "unbound-var", "unbound-class", "unbound-member",
-             "unbound-module", "private-member", "iface-missing", "bound-violation", "int-range",
+             "unbound-module", "private-member", "iface-missing", "bound-violation", "abstract-type", "int-range",
              "match-nonexhaustive"]
 VERDICT = {
     "TraceNoCrash": "the front end / compiler does not crash on an ill-formed program",
